@@ -133,6 +133,123 @@ class Grammar:
                         work.append((r, rc))
         return ctx
 
+    # ---- may the text a rule matches contain layout?
+    LAYOUT_RULES = ("WHITESPACE", "NEWLINE", "COMMENT", "plain_newline", "comment", "eol_comment")
+
+    def layout(self, name, _seen=None):
+        """'admits' when the text matched by the rule can contain optional layout (an implicit gap between the parts of a
+        sequence / repetition matched in a non-atomic context, or an explicit layout rule); 'free' when it cannot; 'unknown' else"""
+        _seen = _seen or set()
+        if name in _seen:
+            return "free"
+        if name in self.LAYOUT_RULES:
+            return "admits"
+        if name not in self.rules:
+            return "free"   # built-in character classes
+        _seen = _seen | {name}
+        ctxs = self.atomic_contexts().get(name, set())
+        implicit = "WHITESPACE" in self.rules or "COMMENT" in self.rules
+        verdict = "free"
+
+        def composite(e):
+            k = e["k"]
+            if k == "seq":
+                # predicates take no text: `!kw ~ ident` is one part
+                parts = [x for x in self.seq(e) if x["k"] not in ("pos_pred", "neg_pred", "pos", "neg")]
+                return len(parts) >= 2 or any(composite(x) for x in parts)
+            if k in ("rep", "rep1", "rep_min", "rep_max", "rep_exact", "rep_min_max"):
+                return True
+            if k in ("choice",):
+                return composite(e["a"]) or composite(e["b"])
+            if k in ("opt", "push"):
+                return composite(e["e"])
+            return False
+        body = self.expr(name)
+        if implicit and "normal" in ctxs and composite(body):
+            return "admits"
+        if implicit and not ctxs and composite(body):
+            verdict = "unknown"
+        for r in self.refs_no_pred(body):
+            sub = self.layout(r, _seen)
+            if sub == "admits":
+                return "admits"
+            if sub == "unknown":
+                verdict = "unknown"
+        return verdict
+
+    def refs_no_pred(self, e):
+        out = []
+
+        def go(x):
+            if x["k"] in ("pos_pred", "neg_pred", "pos", "neg"):
+                return
+            if x["k"] == "ident":
+                out.append(x["v"])
+            for k in ("a", "b", "e"):
+                if k in x and isinstance(x[k], dict):
+                    go(x[k])
+        go(e)
+        return out
+
+    def child_max(self, name):
+        """upper bound on the number of child pairs a rule's pair has (None = unbounded)"""
+        def cnt(e, depth=0):
+            k = e["k"]
+            if depth > 12:
+                return None
+            if k in ("pos_pred", "neg_pred", "pos", "neg"):
+                return 0
+            if k == "ident":
+                if e["v"] not in self.rules:
+                    return 0
+                if self.ty(e["v"]) == "silent":
+                    return cnt(self.expr(e["v"]), depth + 1)
+                return 1
+            if k == "seq":
+                a, b = cnt(e["a"], depth + 1), cnt(e["b"], depth + 1)
+                return None if a is None or b is None else a + b
+            if k == "choice":
+                a, b = cnt(e["a"], depth + 1), cnt(e["b"], depth + 1)
+                return None if a is None or b is None else max(a, b)
+            if k in ("opt", "push"):
+                return cnt(e["e"], depth + 1)
+            if k.startswith("rep"):
+                c = cnt(e["e"], depth + 1)
+                return 0 if c == 0 else None
+            return 0
+        return cnt(self.expr(name))
+
+    def first_children(self, name):
+        """set of rules the first child pair of a rule's pair can have (a superset when optional parts precede)"""
+        def go(e, depth=0):
+            """(set, always) - the rules that can come first, and whether some child is always produced"""
+            k = e["k"]
+            if depth > 12 or k in ("pos_pred", "neg_pred", "pos", "neg"):
+                return set(), False
+            if k == "ident":
+                if e["v"] not in self.rules:
+                    return set(), False
+                if self.ty(e["v"]) == "silent":
+                    return go(self.expr(e["v"]), depth + 1)
+                return {e["v"]}, True
+            if k == "seq":
+                out = set()
+                for x in self.seq(e):
+                    s_, al = go(x, depth + 1)
+                    out |= s_
+                    if al:
+                        return out, True
+                return out, False
+            if k == "choice":
+                a, b = go(e["a"], depth + 1), go(e["b"], depth + 1)
+                return a[0] | b[0], a[1] and b[1]
+            if k in ("opt", "rep"):
+                return go(e["e"], depth + 1)[0], False
+            if k in ("rep1", "push") or k.startswith("rep_"):
+                return go(e["e"], depth + 1)
+            return set(), False
+        return go(self.expr(name))[0]
+
     # ---- produced children (non-silent rule references reachable through silent rules)
     def children(self, e, depth=0):
         """set of non-silent rule names an expression can produce as direct child pairs"""
